@@ -26,6 +26,9 @@ import (
 type TTYStep struct {
 	Expect string
 	Send   string
+	// Blind > 0: when Expect has not appeared on the terminal after this long,
+	// Send is typed anyway (a user who types ahead without seeing the prompt).
+	Blind time.Duration
 }
 
 type Cmd struct {
@@ -47,6 +50,7 @@ type Cmd struct {
 	Stdout string
 
 	TTY     bool // give the process a controlling terminal
+	NoCTTY  bool // with StdinTTY / Stdout "tty": the terminal is NOT the controlling one (/dev/tty cannot be opened)
 	Script  []TTYStep
 	Timeout time.Duration
 
@@ -150,6 +154,9 @@ func Run(c *Cmd) *Result {
 		closers = append(closers, master)
 		cmd.ExtraFiles = []*os.File{slave}
 		cmd.SysProcAttr = &syscall.SysProcAttr{Setsid: true, Setctty: true, Ctty: 3}
+		if c.NoCTTY && !c.TTY {
+			cmd.SysProcAttr = &syscall.SysProcAttr{Setsid: true}
+		}
 	} else {
 		// no controlling terminal at all: /dev/tty must not be available
 		cmd.SysProcAttr = &syscall.SysProcAttr{Setsid: true}
@@ -301,6 +308,9 @@ func Run(c *Cmd) *Result {
 					}
 					ttyMu.Unlock()
 					if idx >= 0 {
+						break
+					}
+					if st.Blind > 0 && time.Now().After(deadline.Add(st.Blind-timeout)) {
 						break
 					}
 					if time.Now().After(deadline) {
